@@ -163,6 +163,30 @@ def seeded_variants() -> list[Variant]:
     return out
 
 
+def benign_variants() -> list[Variant]:
+    """Behaviour-preserving refactorings written by sub-agents (/verif/benign/<id>/patch.diff): *must-stay-silent* variants. One per
+    (refactoring, check it once tripped or is aimed at); the expected 'rule' is the pseudo-rule "silent"."""
+    out: list[Variant] = []
+    base = os.path.join(VERIF, "benign")
+    if not os.path.isdir(base):
+        return out
+    for bid in sorted(os.listdir(base)):
+        mp = os.path.join(base, bid, "meta.json")
+        pp = os.path.join(base, bid, "patch.diff")
+        if not (os.path.exists(mp) and os.path.exists(pp)):
+            continue
+        try:
+            with open(mp) as fh:
+                meta = json.load(fh)
+        except Exception:
+            continue
+        first = meta.get("first_run", {})
+        props = {meta.get("property")} | set(first.get("false_alarms", [])) | set(first.get("analysis_errors", []))
+        for prop in sorted(p for p in props if p):
+            out.append(Variant(f"{bid}~{prop}", prop, "silent", "", "", "", (meta.get("title") or bid)[:90], patch=pp))
+    return out
+
+
 def _apply(root: str, v: Variant) -> str | None:
     if v.patch:
         proc = subprocess.run(f"patch -p1 -s -d {root} < {v.patch}", shell=True, capture_output=True, text=True)
@@ -200,6 +224,20 @@ def _run_one(v: Variant, base: str) -> dict:
     ok = proc.returncode == 1 and v.rule in hit_rules
     first = next((ln.strip() for ln in out.splitlines() if ln.startswith(f"  {v.prop}.{v.rule}")), "")
     shutil.rmtree(root, ignore_errors=True)
+    if v.rule == "silent":  # a behaviour-preserving refactoring: any report is the checker's fault
+        ok = proc.returncode == 0
+        return {
+            "variant": v.vid,
+            "property": v.prop,
+            "expect": f"{v.prop}: silent",
+            "status": "silent" if ok else ("FALSE-ALARM" if proc.returncode == 1 else "analysis-error"),
+            "rules_fired": hit_rules,
+            "rc": proc.returncode,
+            "report": next((ln.strip() for ln in out.splitlines() if ln.startswith(f"  {v.prop}.R") or ln.startswith("ANALYSIS-ERROR")), "")[:240],
+            "desc": v.desc,
+            "wall_s": round(time.time() - t0, 1),
+            "tail": "" if ok else out[-600:],
+        }
     return {
         "variant": v.vid,
         "property": v.prop,
@@ -215,7 +253,7 @@ def _run_one(v: Variant, base: str) -> dict:
 
 
 def run(props: list[str], jobs: int = 16, attach_evidence: bool = False) -> int:
-    sel = [v for v in VARIANTS + seeded_variants() if not props or v.prop in props]
+    sel = [v for v in VARIANTS + seeded_variants() + benign_variants() if not props or v.prop in props]
     if not sel:
         print("[ramlint] selftest: no variants selected")
         return 0
@@ -225,13 +263,14 @@ def run(props: list[str], jobs: int = 16, attach_evidence: bool = False) -> int:
         with ThreadPoolExecutor(max_workers=max(1, min(jobs, len(sel)))) as ex:
             for r in ex.map(lambda v: _run_one(v, base), sel):
                 results.append(r)
-                print(f"[selftest] {r['variant']:7s} {r['status']:15s} expect {r['expect']:7s} fired {','.join(r.get('rules_fired', []))} :: {r['desc'][:70]}")
+                print(f"[selftest] {r['variant']:10s} {r['status']:15s} expect {r['expect']:7s} fired {','.join(r.get('rules_fired', []))} :: {r['desc'][:70]}")
     finally:
         shutil.rmtree(base, ignore_errors=True)
         # drop the type-fact caches of the variants (keep the one for the real tree)
-    bad = [r for r in results if r["status"] in ("MISSED", "analysis-error", "not-applicable")]
+    bad = [r for r in results if r["status"] in ("MISSED", "analysis-error", "not-applicable", "FALSE-ALARM")]
     weak = [r for r in results if r["status"] == "other-rule"]
-    print(f"[selftest] {len(results)} variants: {sum(r['status'] == 'detected' for r in results)} detected by the named rule, {len(weak)} by another rule, {len(bad)} missed/broken")
+    n_ben = sum(r["expect"].endswith(": silent") for r in results)
+    print(f"[selftest] {len(results) - n_ben} faulty variants: {sum(r['status'] == 'detected' for r in results)} detected by the named rule, {len(weak)} by another rule; {n_ben} behaviour-preserving variants: {sum(r['status'] == 'silent' for r in results)} silent; {len(bad)} missed/broken/false alarms")
     for r in bad:
         print(f"[selftest] PROBLEM {r['variant']}: {r['status']} {r.get('detail', '')} {r.get('tail', '')[-300:]}")
     if attach_evidence:
@@ -243,7 +282,7 @@ def run(props: list[str], jobs: int = 16, attach_evidence: bool = False) -> int:
                 mine = [{k: v for k, v in r.items() if k != "tail"} for r in results if r["property"] == prop]
                 ev["tier"] = "thorough"
                 ev["coverage"]["selftest_variants"] = mine
-                ev["coverage"]["selftest_summary"] = {"variants": len(mine), "detected": sum(m["status"] in ("detected", "other-rule") for m in mine)}
+                ev["coverage"]["selftest_summary"] = {"faulty_variants": sum(not m["expect"].endswith(": silent") for m in mine), "detected": sum(m["status"] in ("detected", "other-rule") for m in mine), "behaviour_preserving_variants": sum(m["expect"].endswith(": silent") for m in mine), "silent": sum(m["status"] == "silent" for m in mine)}
                 with open(path, "w") as fh:
                     json.dump(ev, fh, indent=1, default=str)
     # a missed variant means the rule is weaker than claimed: that is a failure of the self-test, not of the property
